@@ -8,6 +8,7 @@ PATCH="$1"; shift
 S=$(mktemp -d /dev/shm/vscratch.XXXXXX)
 mkdir -p "$S/repo" "$S/ev"
 cp -r /repo/src "$S/repo/src"
+[ -d /repo/doc ] && cp -r /repo/doc "$S/repo/doc"
 find "$S/repo" -name __pycache__ -prune -exec rm -rf {} +
 if [ -n "$PATCH" ] && [ "$PATCH" != "-" ]; then
   (cd "$S/repo" && git apply $REV --whitespace=nowarn "$PATCH") || { echo "PATCH-FAILED"; rm -rf "$S"; exit 3; }
